@@ -256,7 +256,9 @@ func (c17) Run(e *Env) {
 			queued += p.bits
 		}
 	}
-	drain := time.Duration(float64(queued)/float64(minRate)*float64(time.Second)) + 10*interval + 50*time.Millisecond
+	// (a token bucket that is only looked at once per interval loses the tokens that would exceed the burst
+	// while the head packet waits for the next tick: half as much again as the nominal time is allowed)
+	drain := time.Duration(1.5*float64(queued)/float64(minRate)*float64(time.Second)) + 10*interval + 50*time.Millisecond
 	if cfg.Mode == "leaky" {
 		drain = drain*2 + time.Second
 	}
